@@ -20,6 +20,7 @@ from .jobs import Job, file_kind
 REPO = os.environ.get("SHROUD_REPO", "/repo")
 
 _shroud = None
+_reuse = {"live": None, "parsed": None}  # entry "args_reuse": the caller's long-lived Namespace
 
 
 def setup_process():
@@ -121,7 +122,7 @@ def run_job(fs, env, job, entry="cli", fault=None, stage=True):
                 else:
                     shroud.create_wrapper(job.api["filename"], outdir=job.api["outdir"],
                                           path=list(job.api["path"]))
-            elif entry == "args" and hasattr(shroud.main, "main_with_args"):
+            elif entry in ("args", "args_reuse") and hasattr(shroud.main, "main_with_args"):
                 captured = []
                 real = shroud.main.main_with_args
                 shroud.main.main_with_args = lambda a: captured.append(a)
@@ -135,7 +136,21 @@ def run_job(fs, env, job, entry="cli", fault=None, stage=True):
                     shroud.main.main_with_args = real
                 if not captured:
                     raise RuntimeError("harness: argument parser did not reach main_with_args")
-                real(captured[0])
+                if entry == "args_reuse":
+                    # a caller that keeps ONE Namespace object for all its libraries and, before each
+                    # call, sets exactly the attributes whose values differ from the previous library's
+                    import copy
+                    parsed = captured[0]
+                    if _reuse["live"] is None:
+                        _reuse["live"] = copy.copy(parsed)
+                    else:
+                        for key, val in vars(parsed).items():
+                            if key not in vars(_reuse["parsed"]) or getattr(_reuse["parsed"], key) != val:
+                                setattr(_reuse["live"], key, copy.copy(val))
+                    _reuse["parsed"] = copy.deepcopy(parsed)
+                    real(_reuse["live"])
+                else:
+                    real(captured[0])
             else:
                 sys.argv = ["shroud"] + job.argv
                 shroud.main.main()
